@@ -27,21 +27,24 @@ Proof.
     specialize (H Hin). cbv beta in H. lia.
 Qed.
 
-(* C08_dst: the property's statement with mktime defined as the unique instant *)
-Theorem tp_ranges_dst_mk_def off ranges b e t :
+(* C08_dst: the property's statement with mktime defined as the unique instant, either form of the source *)
+Theorem tp_ranges_dst_mk_def off (rnd lb : bool) ranges b e t :
   (forall t, -86400 < off t < 86400) ->
   (forall s1 s2, s1 < s2 -> off (s1 - 1) <> off s1 -> off (s2 - 1) <> off s2 -> s1 + 172800 <= s2) ->
   b <= t <= e -> tp_ranges_bounded ranges ->
-  (forall L, In L (tp_needed_list off ranges b e) -> tp_once off L) ->
-  (forall d kv, tp_local_day off b <= d <= tp_local_day off e -> In kv ranges ->
-                tp_day_matches_secs (tp_mk_def off) (fst kv) d = tp_day_matches (fst kv) d) ->
-  (forall d, d < tp_local_day off b -> tp_day_covers off (tp_mk_def off) false ranges d t = false) ->
-  tp_inside_segs (tp_script_func off (tp_mk_def off) ranges b e) t =
+  (forall L, In L (tp_needed_list off lb ranges b e) -> tp_once off L) ->
+  tp_once off (tp_local_day off b * 86400) ->
+  (if rnd then forall t t', off t - off t' < 43200
+   else forall d kv, tp_first_day off lb b <= d <= tp_local_day off e -> In kv ranges ->
+                     tp_day_matches_secs (tp_mk_def off) (fst kv) d = tp_day_matches (fst kv) d) ->
+  (forall d, d < tp_first_day off lb b -> tp_day_covers off (tp_mk_def off) false ranges d t = false) ->
+  tp_inside_segs (tp_script_func off (tp_mk_def off) rnd lb ranges b e) t =
   tp_spec_inside off (tp_mk_def off) false None tp_back ranges t.
 Proof.
-  intros Hb Hs Ht Hr Honce Hstride Hwrap.
+  intros Hb Hs Ht Hr Honce Honce0 Hstride Hwrap.
   apply (tp_ranges_dst off Hb Hs (tp_mk_def off)); try assumption.
-  intros L HL. apply tp_mk_def_good; [exact Hb|apply Honce; exact HL].
+  - intros L HL. apply tp_mk_def_good; [exact Hb|apply Honce; exact HL].
+  - apply tp_mk_def_good; [exact Hb|exact Honce0].
 Qed.
 
 (* ---------------- (b) tables ---------------- *)
@@ -129,38 +132,114 @@ Proof.
   lia.
 Qed.
 
-Definition tp_cal_hyps_ok (base : Z) (tab : list (Z * Z)) (ranges : list (tp_dayrange * list (Z * Z))) (b e : Z) : bool :=
-  tp_tab_ok base tab && forallb (tp_tab_good_b base tab) (tp_needed_list (tp_tab_off base tab) ranges b e).
+(* the zone's offsets differ by less than 12 h (asked for by the rounded day number of form rnd = true) *)
+Definition tp_tab_span_ok (base : Z) (tab : list (Z * Z)) : bool :=
+  forallb (fun o1 => forallb (fun o2 => o1 - o2 <? 43200) (tp_tab_offsets base tab)) (tp_tab_offsets base tab).
+
+Lemma tp_tab_span_sound base tab :
+  tp_tab_span_ok base tab = true -> forall t t', tp_tab_off base tab t - tp_tab_off base tab t' < 43200.
+Proof.
+  intros H t t'. unfold tp_tab_span_ok in H.
+  pose proof (proj1 (forallb_forall _ _) H _ (tp_tab_off_in tab base t)) as H1. cbv beta in H1.
+  pose proof (proj1 (forallb_forall _ _) H1 _ (tp_tab_off_in tab base t')) as H2. cbv beta in H2. lia.
+Qed.
+
+(* the hypotheses about local time, decided by computation for the form of the source at hand: the table, every local
+   time mktime is asked about (incl. begin's own local midnight), and for the rounded day number the 12 h span *)
+Definition tp_cal_hyps_ok (rnd lb : bool) (base : Z) (tab : list (Z * Z)) (ranges : list (tp_dayrange * list (Z * Z))) (b e : Z) : bool :=
+  tp_tab_ok base tab
+  && forallb (tp_tab_good_b base tab) (tp_local_day (tp_tab_off base tab) b * 86400 :: tp_needed_list (tp_tab_off base tab) lb ranges b e)
+  && (negb rnd || tp_tab_span_ok base tab).
+
+Lemma tp_cal_hyps_ok_elim rnd lb base tab ranges b e :
+  tp_cal_hyps_ok rnd lb base tab ranges b e = true ->
+  tp_tab_ok base tab = true /\
+  (forall L, In L (tp_needed_list (tp_tab_off base tab) lb ranges b e) -> tp_good (tp_tab_off base tab) (tp_tab_mk base tab) L) /\
+  tp_good (tp_tab_off base tab) (tp_tab_mk base tab) (tp_local_day (tp_tab_off base tab) b * 86400) /\
+  (rnd = true -> forall t t', tp_tab_off base tab t - tp_tab_off base tab t' < 43200).
+Proof.
+  unfold tp_cal_hyps_ok. intros H. apply andb_prop in H. destruct H as [H Hsp]. apply andb_prop in H. destruct H as [Hok Hg].
+  pose proof (proj1 (forallb_forall _ _) Hg) as Hall.
+  split; [exact Hok|]. split; [|split].
+  - intros L HL. apply tp_tab_good_sound. apply Hall. right. exact HL.
+  - apply tp_tab_good_sound. apply Hall. left. reflexivity.
+  - intros ->. cbn [negb orb] in Hsp. apply tp_tab_span_sound. exact Hsp.
+Qed.
 
 (* the statement for the executable model: every premise about local time is a computed boolean *)
-Theorem tp_ranges_table base tab ranges b e t :
-  tp_cal_hyps_ok base tab ranges b e = true ->
+Theorem tp_ranges_table rnd lb base tab ranges b e t :
+  tp_cal_hyps_ok rnd lb base tab ranges b e = true ->
   b <= t <= e -> tp_ranges_bounded ranges ->
-  (forall d kv, tp_local_day (tp_tab_off base tab) b <= d <= tp_local_day (tp_tab_off base tab) e -> In kv ranges ->
+  (rnd = false -> forall d kv, tp_first_day (tp_tab_off base tab) lb b <= d <= tp_local_day (tp_tab_off base tab) e -> In kv ranges ->
                 tp_day_matches_secs (tp_tab_mk base tab) (fst kv) d = tp_day_matches (fst kv) d) ->
-  (forall d, d < tp_local_day (tp_tab_off base tab) b ->
+  (forall d, d < tp_first_day (tp_tab_off base tab) lb b ->
              tp_day_covers (tp_tab_off base tab) (tp_tab_mk base tab) false ranges d t = false) ->
-  tp_inside_segs (tp_script_func (tp_tab_off base tab) (tp_tab_mk base tab) ranges b e) t =
+  tp_inside_segs (tp_script_func (tp_tab_off base tab) (tp_tab_mk base tab) rnd lb ranges b e) t =
   tp_spec_inside (tp_tab_off base tab) (tp_tab_mk base tab) false None tp_back ranges t.
 Proof.
-  intros Hok Ht Hr Hstride Hwrap. unfold tp_cal_hyps_ok in Hok. apply andb_prop in Hok. destruct Hok as [Hok Hg].
-  destruct (tp_tab_hyps base tab Hok) as [Hb Hs].
+  intros Hok Ht Hr Hstride Hwrap. destruct (tp_cal_hyps_ok_elim _ _ _ _ _ _ _ Hok) as (Htab & Hneed & Hg0 & Hspan).
+  destruct (tp_tab_hyps base tab Htab) as [Hb Hs].
   apply (tp_ranges_dst (tp_tab_off base tab) Hb Hs (tp_tab_mk base tab)); try assumption.
-  intros L HL. apply tp_tab_good_sound. exact (proj1 (forallb_forall _ _) Hg L HL).
+  destruct rnd; [apply Hspan; reflexivity|apply Hstride; reflexivity].
 Qed.
 
-(* ... and the day loop for tables: exactly the local days that meet [b, e] *)
-Theorem tp_day_loop_days_table base tab ranges b e r :
-  tp_cal_hyps_ok base tab ranges b e = true -> b <= e ->
-  (In r (tp_loop_days (tp_tab_mk base tab) (tp_loop_fuel b e) (tp_local_day (tp_tab_off base tab) b) e) <->
+(* the source with BOTH repairs (rounded day number, loop started a day early): for ranges that end at most 48 h after
+   00:00 of their day the computed hypotheses are all that is asked - no finding's signature is left *)
+Theorem tp_ranges_table_repaired base tab ranges b e t :
+  tp_cal_hyps_ok true true base tab ranges b e = true ->
+  b <= t <= e -> tp_ranges_bounded ranges -> tp_ranges_reach1 ranges ->
+  tp_inside_segs (tp_script_func (tp_tab_off base tab) (tp_tab_mk base tab) true true ranges b e) t =
+  tp_spec_inside (tp_tab_off base tab) (tp_tab_mk base tab) false None tp_back ranges t.
+Proof.
+  intros Hok Ht Hr Hr1. destruct (tp_cal_hyps_ok_elim _ _ _ _ _ _ _ Hok) as (Htab & Hneed & Hg0 & Hspan).
+  destruct (tp_tab_hyps base tab Htab) as [Hb Hs].
+  apply (tp_ranges_lookback_dst (tp_tab_off base tab) Hb Hs (tp_tab_mk base tab)); try assumption; [reflexivity|].
+  apply Hspan. reflexivity.
+Qed.
+
+(* ... and the day loop for tables: exactly the local days that meet [b, e], and in form lb the day before *)
+Theorem tp_day_loop_days_table rnd lb base tab ranges b e r :
+  tp_cal_hyps_ok rnd lb base tab ranges b e = true -> b <= e ->
+  (In r (tp_loop_days (tp_tab_mk base tab) (tp_loop_fuel b e) (tp_first_day (tp_tab_off base tab) lb b) e) <->
+   (lb = true /\ r = tp_local_day (tp_tab_off base tab) b - 1) \/
    exists t, b <= t <= e /\ tp_local_day (tp_tab_off base tab) t = r).
 Proof.
-  intros Hok Hbe. unfold tp_cal_hyps_ok in Hok. apply andb_prop in Hok. destruct Hok as [Hok Hg].
-  destruct (tp_tab_hyps base tab Hok) as [Hb Hs].
-  assert (forall L, In L (tp_needed_list (tp_tab_off base tab) ranges b e) ->
-                    tp_good (tp_tab_off base tab) (tp_tab_mk base tab) L) as Hneed.
-  { intros L HL. apply tp_tab_good_sound. exact (proj1 (forallb_forall _ _) Hg L HL). }
-  apply (tp_day_loop_days (tp_tab_off base tab) Hb Hs (tp_tab_mk base tab)); [exact Hbe| |].
-  - apply Hneed. left. reflexivity.
-  - intros d Hd. apply Hneed. apply (tp_needed_in (tp_tab_off base tab) Hb Hs (tp_tab_mk base tab) ranges b e d Hd).
+  intros Hok Hbe. destruct (tp_cal_hyps_ok_elim _ _ _ _ _ _ _ Hok) as (Htab & Hneed & Hg0 & _).
+  destruct (tp_tab_hyps base tab Htab) as [Hb Hs].
+  apply (tp_day_loop_days (tp_tab_off base tab) Hb Hs (tp_tab_mk base tab)); [exact Hbe|exact Hg0|].
+  intros d Hd. apply Hneed. apply (tp_needed_in (tp_tab_off base tab) Hb Hs (tp_tab_mk base tab) lb ranges b e d Hd).
 Qed.
+
+(* the statement for whatever form the source has: per repair, either the negated signature of the finding (pinned form)
+   or the condition under which the repaired form is exact *)
+Theorem tp_ranges_table_form (rnd lb : bool) base tab ranges b e t :
+  tp_cal_hyps_ok rnd lb base tab ranges b e = true ->
+  b <= t <= e -> tp_ranges_bounded ranges ->
+  (rnd = false -> forall d kv, tp_first_day (tp_tab_off base tab) lb b <= d <= tp_local_day (tp_tab_off base tab) e -> In kv ranges ->
+                tp_day_matches_secs (tp_tab_mk base tab) (fst kv) d = tp_day_matches (fst kv) d) ->
+  (if lb then tp_ranges_reach1 ranges
+   else forall d, d < tp_local_day (tp_tab_off base tab) b ->
+                  tp_day_covers (tp_tab_off base tab) (tp_tab_mk base tab) false ranges d t = false) ->
+  tp_inside_segs (tp_script_func (tp_tab_off base tab) (tp_tab_mk base tab) rnd lb ranges b e) t =
+  tp_spec_inside (tp_tab_off base tab) (tp_tab_mk base tab) false None tp_back ranges t.
+Proof.
+  intros Hok Ht Hr Hstride Hwrap. destruct lb.
+  - destruct (tp_cal_hyps_ok_elim _ _ _ _ _ _ _ Hok) as (Htab & Hneed & Hg0 & Hspan).
+    destruct (tp_tab_hyps base tab Htab) as [Hb Hs].
+    apply (tp_ranges_lookback_dst (tp_tab_off base tab) Hb Hs (tp_tab_mk base tab)); try assumption; [reflexivity|].
+    destruct rnd; [apply Hspan; reflexivity|apply Hstride; reflexivity].
+  - apply tp_ranges_table; assumption.
+Qed.
+
+(* the rounded day number is NOT the calendar distance in a (synthetic) zone whose offset jumps by 13 h: the span
+   condition of form rnd = true cannot be dropped.  Offset 0, then +13 h from 2034-03-26 03:00 UTC; stride 2 from the 25th:
+   the 27th is two calendar days on, the rounded quotient says one *)
+Theorem tp_stride_round_span_needed :
+  let base := 0 in
+  let tab := [(tp_days_from_civil 2034 3 26 * 86400 + 10800, 46800)] in
+  let dd := {| tp_dr_first := TpDate 2034 3 25; tp_dr_last := Some (TpDate 2034 3 31); tp_dr_stride := 2 |} in
+  let r := tp_days_from_civil 2034 3 27 in
+  tp_tab_ok base tab = true /\ tp_tab_span_ok base tab = false /\
+  forallb (tp_tab_good_b base tab) [r * 86400; tp_range_begin_day dd r * 86400; tp_range_end_day dd r * 86400] = true /\
+  tp_day_matches dd r = true /\ tp_in_day_def (tp_tab_mk base tab) true dd r = false.
+Proof. vm_compute. repeat split; reflexivity. Qed.
